@@ -270,6 +270,7 @@ func zzH05_frozenList() {
 		}
 	}
 	l.Freeze()
+	twin.Freeze() // shared between the goroutines of the native replay: must be frozen too
 	x, i := zzMInt(zzU8("x")), int(zzI8("i"))
 	run := func(fp *zzFP) {
 		if zzC05Common(op, l, twin, fp) {
@@ -354,7 +355,7 @@ func zzH05_frozenList() {
 			fp.val(r)
 		}
 	}
-	writes, agree := zzC05Run(run, l)
+	writes, agree := zzC05Run(run, l, twin)
 	zzObserve("writes", writes)
 	zzAssert(writes == 0, "C05.list.no_shared_write")
 	zzAssert(agree, "C05.list.same_results_as_solo")
@@ -377,6 +378,7 @@ func zzH05_frozenDict() {
 		}
 	}
 	d.Freeze()
+	twin.Freeze()
 	x, y := zzMInt(zzU8("x")), zzMInt(zzU8("y"))
 	run := func(fp *zzFP) {
 		if zzC05Common(op, d, twin, fp) {
@@ -455,7 +457,7 @@ func zzH05_frozenDict() {
 			fp.val(r)
 		}
 	}
-	writes, agree := zzC05Run(run, d)
+	writes, agree := zzC05Run(run, d, twin)
 	zzObserve("writes", writes)
 	zzAssert(writes == 0, "C05.dict.no_shared_write")
 	zzAssert(agree, "C05.dict.same_results_as_solo")
@@ -480,6 +482,7 @@ func zzH05_frozenSet() {
 		}
 	}
 	s.Freeze()
+	twin.Freeze()
 	x := zzMInt(zzU8("x"))
 	run := func(fp *zzFP) {
 		if zzC05Common(op, s, twin, fp) {
@@ -546,7 +549,7 @@ func zzH05_frozenSet() {
 			}
 		}
 	}
-	writes, agree := zzC05Run(run, s)
+	writes, agree := zzC05Run(run, s, twin)
 	zzObserve("writes", writes)
 	zzAssert(writes == 0, "C05.set.no_shared_write")
 	zzAssert(agree, "C05.set.same_results_as_solo")
